@@ -2,32 +2,44 @@
   Sem/Sched.lean — small-step interleaving semantics of N thread programs over a shared store of
   scratch cells (C20).
 
-  What is modelled (read off typedpy/fields/array.py:22-31, set_field.py:78-84, map_field.py:70-83,
-  tuple_field.py:101-109, array.py:153-159, deque_field.py:93-99):
+  What is modelled (read off typedpy/fields/array.py extract_field_value / Array.__set__, set_field.py Set.__set__ /
+  ImmutableSet.__set__, map_field.py Map.__set__, tuple_field.py Tuple.__set__, deque_field.py Deque.__set__,
+  multified_wrappers.py AllOf / AnyOf / OneOf / NotField.__set__):
 
   * a *cell* is one attribute of one Field object that is reachable from a class and therefore shared by
     every instance and every thread (the `_name` attribute of an item / key / value / option field);
-  * validating a collection value is a straight-line *program* of steps
-        `setattr(cell, "_name", n)`                              ↦ `writeShared cell n`
+  * a *name expression* `Nm` is what the code uses as a key / in a message: a constant (the owner field's own,
+    never rewritten, name), the current content of a cell, or that content with a suffix (`self._name + "_3"` where
+    `self` is itself a nested item whose `_name` is scratch);
+  * validating a value is a straight-line *program* of steps, each with at most ONE shared access (the granularity at
+    which CPython can pre-empt: between the load of `x._name` and whatever uses it):
+        `setattr(cell, "_name", n)`                              ↦ `write cell n`
         `temp_st = Structure()`                                  ↦ `newTemp`
         `item.__set__(temp_st, v)`   (validate, then `temp_st.__dict__[item._name] = v`, or raise
                                       an error whose message starts with `item._name`)
-                                                                 ↦ `storeTemp cell v valid`
-        `res.append(getattr(temp_st, getattr(item, "_name")))`   ↦ `loadTemp cell`
-    where store and load use the name that is in the shared cell *at that moment*;
+                                                                 ↦ `store n v valid`
+        `res.append(getattr(temp_st, getattr(item, "_name")))`   ↦ `load n`
+        `option.__set__(scratch, v)` (the stored value is dropped; only the error, named by `option._name`, counts)
+                                                                 ↦ `check n ok`
+        `super().__set__(inst, inst.__dict__[self._name])`       ↦ `move src dst`
+    where `n` is evaluated against the shared store *at that moment*;
   * the thread-private part of a thread is its remaining program, its temp structure, the result built so far
     and the exception that ended it (if any);
-  * a schedule is a list of thread ids; scheduling a finished (or non-existent) thread is a no-op.
+  * a schedule is a list of thread ids; scheduling a finished (or non-existent) thread is a no-op;
+  * `instFrom` gives every program its cells: a cell of a site that the generated shared-write table lists as unsafe
+    is the shared Field object of the class definition; a cell of a site without such a row is a thread-private copy
+    (the validator works on its own renamed copy of the Field object).
 
   Nothing here knows about locks: there are none in the code.
 -/
+import TypedpyModel.Sem.SharedWrite
 namespace Typedpy.Sched
 
 /-- how a thread program can end abnormally -/
 inductive Err where
   /-- the element was rejected; the message names the field `name` (TypeError / ValueError) -/
   | invalid (name : String)
-  /-- `getattr(temp_st, name)` failed: AttributeError naming `name` -/
+  /-- `getattr(temp_st, name)` / `inst.__dict__[name]` failed: AttributeError / KeyError naming `name` -/
   | missing (name : String)
   deriving DecidableEq, Repr
 
@@ -36,33 +48,6 @@ inductive Outcome where
   | ok (out : List Int)
   | raised (e : Err)
   deriving DecidableEq, Repr
-
-inductive Step where
-  | writeShared (cell : Nat) (name : String)
-  | newTemp
-  | storeTemp (cell : Nat) (v : Int) (valid : Bool)
-  | loadTemp (cell : Nat)
-  /-- thread-private step (surplus positional items are appended unvalidated) -/
-  | emit (v : Int)
-  deriving DecidableEq, Repr
-
-def Step.writesShared : Step → Bool
-  | .writeShared _ _ => true
-  | _ => false
-
-/-- cells a step writes -/
-def Step.writeCells : Step → List Nat
-  | .writeShared c _ => [c]
-  | _ => []
-
-/-- cells a step reads -/
-def Step.readCells : Step → List Nat
-  | .storeTemp c _ _ => [c]
-  | .loadTemp c => [c]
-  | _ => []
-
-def writeCells (p : List Step) : List Nat := p.flatMap Step.writeCells
-def readCells (p : List Step) : List Nat := p.flatMap Step.readCells
 
 /-- the shared store: cell ↦ current content of the scratch attribute -/
 abbrev Shared := Nat → String
@@ -73,6 +58,66 @@ def Shared.ofList (l : List (Nat × String)) : Shared := fun c =>
   match l.lookup c with
   | some n => n
   | none => ""
+
+/-- a name as the code computes it at some point -/
+inductive Nm where
+  /-- a name that no thread rewrites (the `_name` of a field of the class itself) -/
+  | const (s : String)
+  /-- the current content of a shared cell -/
+  | cell (c : Nat)
+  /-- the current content of a shared cell, with a suffix appended -/
+  | cellSuf (c : Nat) (suffix : String)
+  deriving DecidableEq, Repr
+
+def Nm.eval (sh : Shared) : Nm → String
+  | .const s => s
+  | .cell c => sh c
+  | .cellSuf c suf => sh c ++ suf
+
+/-- cells a name expression reads -/
+def Nm.cells : Nm → List Nat
+  | .const _ => []
+  | .cell c => [c]
+  | .cellSuf c _ => [c]
+
+inductive Step where
+  | write (dst : Nat) (n : Nm)
+  | newTemp
+  | store (n : Nm) (v : Int) (valid : Bool)
+  | load (n : Nm)
+  /-- `temp[dst] := temp[src]` (KeyError naming `src` when absent) -/
+  | move (src dst : Nm)
+  /-- a validation whose stored value is dropped: nothing when `ok`, else an error named `n` -/
+  | check (n : Nm) (ok : Bool)
+  /-- thread-private step (surplus positional items are appended unvalidated) -/
+  | emit (v : Int)
+  deriving DecidableEq, Repr
+
+/-- the three step forms of the collection validators (constant written name, plain cell reads) -/
+abbrev Step.writeShared (cell : Nat) (name : String) : Step := .write cell (.const name)
+abbrev Step.storeTemp (cell : Nat) (v : Int) (valid : Bool) : Step := .store (.cell cell) v valid
+abbrev Step.loadTemp (cell : Nat) : Step := .load (.cell cell)
+
+def Step.writesShared : Step → Bool
+  | .write _ _ => true
+  | _ => false
+
+/-- cells a step writes -/
+def Step.writeCells : Step → List Nat
+  | .write c _ => [c]
+  | _ => []
+
+/-- cells a step reads -/
+def Step.readCells : Step → List Nat
+  | .write _ n => n.cells
+  | .store n _ _ => n.cells
+  | .load n => n.cells
+  | .move a b => a.cells ++ b.cells
+  | .check n _ => n.cells
+  | _ => []
+
+def writeCells (p : List Step) : List Nat := p.flatMap Step.writeCells
+def readCells (p : List Step) : List Nat := p.flatMap Step.readCells
 
 /-- thread-private state -/
 structure TState where
@@ -95,21 +140,27 @@ def TState.result (t : TState) : Option Outcome :=
 /-- effect of one step on the shared store -/
 def Step.shared (s : Step) (sh : Shared) : Shared :=
   match s with
-  | .writeShared c n => sh.set c n
+  | .write c n => sh.set c (n.eval sh)
   | _ => sh
 
 /-- effect of one step on the thread-private state, given the shared store it runs against -/
 def Step.local (s : Step) (sh : Shared) (rest : List Step) (t : TState) : TState :=
   match s with
-  | .writeShared _ _ => { t with prog := rest }
+  | .write _ _ => { t with prog := rest }
   | .newTemp => { t with prog := rest, temp := [] }
-  | .storeTemp c v valid =>
-    if valid then { t with prog := rest, temp := (sh c, v) :: t.temp }
-    else { t with prog := rest, err := some (.invalid (sh c)) }
-  | .loadTemp c =>
-    match t.temp.lookup (sh c) with
+  | .store n v valid =>
+    if valid then { t with prog := rest, temp := (n.eval sh, v) :: t.temp }
+    else { t with prog := rest, err := some (.invalid (n.eval sh)) }
+  | .load n =>
+    match t.temp.lookup (n.eval sh) with
     | some v => { t with prog := rest, out := t.out ++ [v] }
-    | none => { t with prog := rest, err := some (.missing (sh c)) }
+    | none => { t with prog := rest, err := some (.missing (n.eval sh)) }
+  | .move a b =>
+    match t.temp.lookup (a.eval sh) with
+    | some v => { t with prog := rest, temp := (b.eval sh, v) :: t.temp }
+    | none => { t with prog := rest, err := some (.missing (a.eval sh)) }
+  | .check n ok =>
+    if ok then { t with prog := rest } else { t with prog := rest, err := some (.invalid (n.eval sh)) }
   | .emit v => { t with prog := rest, out := t.out ++ [v] }
 
 /-- one step of one thread -/
@@ -195,23 +246,75 @@ def progPosFrom (base : Nat) (name : String) (n : Nat) : Nat → List (Int × Bo
 def progPos (base : Nat) (name : String) (n : Nat) (elems : List (Int × Bool)) : List Step :=
   .newTemp :: progPosFrom base name n 0 elems
 
+/-- `ImmutableSet.__set__`: like `Set.__set__` with one more (unused) temp structure before the name is written; it then
+    hands the frozenset to `Set.__set__` (`super().__set__`), which validates every element once more -/
+def progISet (cell : Nat) (name : String) (elems : List (Int × Bool)) : List Step :=
+  .newTemp :: progSet cell name elems ++ progSet cell name elems
+
+/-! ### programs of the multi-field wrappers (multified_wrappers.py); `own` is the wrapper's own name, `opts` the option
+    Field objects (cell, does the option accept the value) in declaration order.  An option validates on a scratch
+    structure (`check`); only its error - named by the option's `_name` AT THAT MOMENT - can be observed. -/
+
+/-- `AllOf.__set__`: every option must accept; then the value is stored under the wrapper's own name -/
+def progAllOfFrom (own : Nm) : List (Nat × Bool) → List Step
+  | [] => []
+  | (c, ok) :: rest => .write c own :: .check (.cell c) ok :: progAllOfFrom own rest
+
+def progAllOf (own : Nm) (v : Int) (opts : List (Nat × Bool)) : List Step :=
+  progAllOfFrom own opts ++ [.store own v true, .load own]
+
+/-- `AnyOf.__set__`: options are tried in order (errors swallowed); the first that accepts then stores the value on the
+    real instance UNDER ITS OWN `_name` (`matched.__set__(instance, value)`), and the wrapper reads it back under the
+    wrapper's name (`instance.__dict__[self._name]`) -/
+def progAnyOf (own : Nm) (v : Int) : List (Nat × Bool) → List Step
+  | [] => [.check own false]
+  | (c, ok) :: rest =>
+    .write c own :: .check (.cell c) true ::
+      (if ok then [.store (.cell c) v true, .move own own, .load own] else progAnyOf own v rest)
+
+/-- `OneOf.__set__`: every option is tried (errors swallowed); exactly one must accept -/
+def progOneOfFrom (own : Nm) : List (Nat × Bool) → List Step
+  | [] => []
+  | (c, _) :: rest => .write c own :: .check (.cell c) true :: progOneOfFrom own rest
+
+def progOneOf (own : Nm) (v : Int) (opts : List (Nat × Bool)) : List Step :=
+  progOneOfFrom own opts ++
+    (if (opts.filter fun o => o.2).length == 1 then [.store own v true, .load own] else [.check own false])
+
+/-- `NotField.__set__`: no option may accept -/
+def progNotField (own : Nm) (v : Int) : List (Nat × Bool) → List Step
+  | [] => [.store own v true, .load own]
+  | (c, ok) :: rest =>
+    .write c own :: .check (.cell c) true :: (if ok then [.check own false] else progNotField own v rest)
+
 end Typedpy.Sched
 
 namespace Typedpy.Sched
 
-/-- one validation call of a collection field, as the harness describes it on the wire -/
+inductive WKind where
+  | allOf | anyOf | oneOf | notField
+  deriving DecidableEq, Repr
+
+/-- one validation call of a collection / multi-field wrapper field, as the harness describes it on the wire -/
 inductive Call where
   | homog (cell : Nat) (name : String) (initW : Bool) (elems : List (Int × Bool))
   | set (cell : Nat) (name : String) (elems : List (Int × Bool))
+  | iset (cell : Nat) (name : String) (elems : List (Int × Bool))
   | map (kc vc : Nat) (name : String) (entries : List ((Int × Bool) × (Int × Bool)))
   | pos (base : Nat) (name : String) (n : Nat) (elems : List (Int × Bool))
+  | wrap (kind : WKind) (name : String) (v : Int) (opts : List (Nat × Bool))
   deriving Repr
 
 def Call.prog : Call → List Step
   | .homog c n w es => progHomog c n w es
   | .set c n es => progSet c n es
+  | .iset c n es => progISet c n es
   | .map kc vc n es => progMap kc vc n es
   | .pos b n k es => progPos b n k es
+  | .wrap .allOf n v os => progAllOf (.const n) v os
+  | .wrap .anyOf n v os => progAnyOf (.const n) v os
+  | .wrap .oneOf n v os => progOneOf (.const n) v os
+  | .wrap .notField n v os => progNotField (.const n) v os
 
 /-- decidable conflict freedom: no program writes a cell that another program reads -/
 def disjointB (ws rs : List Nat) : Bool := ws.all fun c => !rs.contains c
@@ -224,7 +327,70 @@ def conflictFreeB (progs : List (List Step)) : Bool :=
 def Call.usesCell (c : Nat) : Call → Bool
   | .homog cell _ _ _ => c == cell
   | .set cell _ _ => c == cell
+  | .iset cell _ _ => c == cell
   | .map kc vc _ _ => c == kc || c == vc
   | .pos base _ n _ => decide (base ≤ c) && decide (c < base + n)
+  | .wrap _ _ _ opts => (opts.map fun o => o.1).contains c
+
+/-! ### which Field objects are shared: follow the generated shared-write table
+
+  A validator site that the table lists with an unsafe value that is READ BACK works on the Field object of the class
+  definition: one cell for all threads.  A site without such a row works on a private renamed copy of the Field object
+  (`_named_copy`): every call gets its own cell.  `instFrom` renames the cells of the i-th program accordingly
+  (shared cell `c` ↦ `2c`, private copy of `c` in program `i` of `N` ↦ `2(cN+i)+1`). -/
+
+def Nm.rename (f : Nat → Nat) : Nm → Nm
+  | .const s => .const s
+  | .cell c => .cell (f c)
+  | .cellSuf c suf => .cellSuf (f c) suf
+
+def Step.rename (f : Nat → Nat) : Step → Step
+  | .write c n => .write (f c) (n.rename f)
+  | .newTemp => .newTemp
+  | .store n v ok => .store (n.rename f) v ok
+  | .load n => .load (n.rename f)
+  | .move a b => .move (a.rename f) (b.rename f)
+  | .check n ok => .check (n.rename f) ok
+  | .emit v => .emit v
+
+def renameProg (f : Nat → Nat) (p : List Step) : List Step := p.map (Step.rename f)
+
+def sharedCell (c : Nat) : Nat := 2 * c
+def privCell (N i c : Nat) : Nat := 2 * (c * N + i) + 1
+
+def cellMap (priv : Nat → Bool) (N i c : Nat) : Nat := if priv c then privCell N i c else sharedCell c
+
+def instFrom (priv : Nat → Bool) (N : Nat) : Nat → List (List Step) → List (List Step)
+  | _, [] => []
+  | i, p :: rest => renameProg (cellMap priv N i) p :: instFrom priv N (i + 1) rest
+
+/-- the table has a row for site `key` whose written value differs between threads and is read back -/
+def siteRacy (tbl : List SharedWrite) (key : String) : Bool :=
+  tbl.any fun r => r.key == key && !r.safe && r.readBack
+
+/-- `sites`: which validator sites write which cell (supplied with the calls; the driver rejects calls that use a cell
+    without a site); a cell is private iff none of its sites is racy -/
+def tablePriv (tbl : List SharedWrite) (sites : List (Nat × String)) (c : Nat) : Bool :=
+  sites.all fun p => p.1 != c || !siteRacy tbl p.2
+
+/-- the thread programs of concurrent calls on a tree whose shared-write table is `tbl` -/
+def modelProgs (tbl : List SharedWrite) (sites : List (Nat × String)) (calls : List Call) : List (List Step) :=
+  instFrom (tablePriv tbl sites) calls.length 0 (calls.map Call.prog)
+
+/-- a step that touches a cell shared between threads, or starts a new temp structure: what the harness can observe as
+    an event of the real code (private cells have odd numbers) -/
+def Nm.sharedB : Nm → Bool
+  | .const _ => false
+  | .cell c => c % 2 == 0
+  | .cellSuf c _ => c % 2 == 0
+
+def Step.isEvent : Step → Bool
+  | .write c _ => c % 2 == 0
+  | .newTemp => true
+  | .store n _ _ => n.sharedB
+  | .load n => n.sharedB
+  | .move a b => a.sharedB || b.sharedB
+  | .check n _ => n.sharedB
+  | .emit _ => false
 
 end Typedpy.Sched
